@@ -68,14 +68,15 @@ namespace
         static Device &device() { static Device d; return d; }
         static igris::delegate<void, int, int> make(TimerWorldT<TT> *w, int id)
         {
-            if ((id / 2) % 4 == 1)
+            int kind = (id / 2 + w->n) % 4; // which delegate kind a timer id gets rotates with the number of timers of the run
+            if (kind == 1)
             {
                 device().world = w;
                 void (Device::*h)(int, int) = &Device::on_timer;
                 return igris::make_delegate(h, &device());
             }
-            if ((id / 2) % 4 == 0) return igris::make_delegate(&TimerWorldT<TT>::on_delegate, w);
-            if ((id / 2) % 4 == 2) return igris::make_delegate(&ext_thunk, (void *)w);
+            if (kind == 0) return igris::make_delegate(&TimerWorldT<TT>::on_delegate, w);
+            if (kind == 2) return igris::make_delegate(&ext_thunk, (void *)w);
             plain_target() = w;
             return igris::make_delegate(&plain_thunk);
         }
